@@ -346,6 +346,9 @@ static void handle(char *line)
 			free(js);
 		} else if (!g_sets[s]) { printf("noset");
 		} else if (!strcmp(t[2], "item") && n >= 4) { print_item(jwks_item_get(g_sets[s], (size_t)atol(t[3])));
+		} else if (!strcmp(t[2], "pem") && n >= 4) {
+			const jwk_item_t *it = jwks_item_get(g_sets[s], (size_t)atol(t[3]));
+			putstr(it ? jwks_item_pem(it) : NULL);
 		} else if (!strcmp(t[2], "count")) { printf("%zu", jwks_item_count(g_sets[s]));
 		} else if (!strcmp(t[2], "free") && n >= 4) { printf("%d", jwks_item_free(g_sets[s], (size_t)atol(t[3])));
 		} else if (!strcmp(t[2], "freebad")) { printf("%d", jwks_item_free_bad(g_sets[s]));
